@@ -38,7 +38,54 @@ def jobs(tier):
                         continue
                     label = "v%d.%s.P%d.%s" % (version, shape, P, "-".join(k[0] for k in dmg))
                     out.append((label, "job_recheck", dict(prop="C16", version=version, shape=shape, P=P, K=K, dmg=dmg, source="ref")))
+    for version in (1, 2, 3):
+        for shape in ("selfname", "selfdir"):
+            for dmg in (["intact", "intact"], ["intact", "flip"], ["missing", "intact"]):
+                for cpath in ("root", "parent"):
+                    out.append(("v%d.%s.P16384.%s.%s" % (version, shape, "-".join(k[0] for k in dmg), cpath), "job_recheck",
+                                dict(prop="C16", version=version, shape=shape, P=16384, K=1, dmg=dmg, source="ref", cpath=cpath)))
+        out.append(("v%d.flat2.same-checker-twice" % version, "job_twice", dict(version=version)))
     return out
+
+
+def job_twice(E, version, _mutants=None):
+    """One Checker object asked twice, the content changing in between: the second
+    answer must be the reference share for the content as it is then."""
+    from symx.afs import AFS
+    from symx.loader import World, BenTok
+    from symx.core import disj, Rat, tb
+    P = 16384
+    shape = "flat2"
+    rels = rk.SHAPES[shape]
+    fs = AFS(order="reversed")
+    sizes = {r: E.int("s%d" % i, 0, 2 * P) for i, r in enumerate(rels)}
+    E.note("shape", shape)
+    E.assume(disj(*[s > 0 for s in sizes.values()]))
+    rk.apply_damage(E, fs, shape, sizes, ["intact", "intact"])
+    meta = rk.ref_meta(E, version, shape, sizes, P)
+    fs.add_token("/t/m.torrent", BenTok(meta))
+    w = World(fs, mutants=_mutants)
+    try:
+        c = w.mod("recheck").Checker("/t/m.torrent", "/data")
+        first = c.results()
+        t = E.int("t0", 0, None)
+        E.assume(t < sizes[rels[0]])
+        fid = rk.cr.fid_of(shape, rels[0])
+        from symx.abuf import ABuf
+        fs.add_content("/data/" + rels[0], ABuf.file(fid, t))
+        second = c.results()
+    except Exception as ex:  # noqa: BLE001
+        E.fail("C16.no-exception", "%s: %s" % (type(ex).__name__, ex))
+        return
+    E.check(first == 100, "C16.twice.first", "intact content reported as %r" % (first,))
+    disk_ext = {rels[0]: ABuf.of([("F", fid, 0, t), ("Z", None, 0, sizes[rels[0]] - t)]), rels[1]: rk.expected_content(shape, rels[1], sizes)}
+    table = rk.piece_table(version, shape, sizes, P, disk_ext, meta)
+    ref = 0
+    total = sizes[rels[0]] + sizes[rels[1]]
+    for ok, n in table:
+        if ok:
+            ref = ref + n
+    rk.check_percentage(E, second, ref, total, None, "C16.twice.second")
 
 
 def validate(tier, workdir, seed):
@@ -46,6 +93,30 @@ def validate(tier, workdir, seed):
 
 
 def replay(params, model, notes, workdir, seed):
+    if "shape" not in params:
+        import io
+        import os
+        import contextlib
+        p2 = dict(prop="C16", version=params["version"], shape="flat2", P=16384, K=2, dmg=["intact", "intact"], source="ref", cpath="parent")
+        mpath, cpath, data, disk, sizes = rk.conc_world(p2, model, workdir, seed)
+        mods = rk.cr.real_torrentfile()
+        with contextlib.redirect_stdout(io.StringIO()):
+            c = mods["torrentfile.recheck"].Checker(mpath, cpath)
+            first = c.results()
+            t = int(model.get("t0", 0))
+            a = os.path.join(workdir, "data", "name", "a")
+            with open(a, "wb") as f:
+                f.write(data["name/a"][:t])
+            second = c.results()
+        disk["name/a"] = data["name/a"][:t]
+        table = rk.conc_table(params["version"], "flat2", 16384, data, disk, rk.v1_order("flat2"))
+        ref = sum(n for ok, n in table if ok) / sum(sizes.values()) * 100
+        bad = []
+        if first != 100:
+            bad.append("C16.twice.first")
+        if second != ref:
+            bad.append("C16.twice.second (%r vs %r)" % (second, ref))
+        return bad
     return rk.conc_recheck("C16", params, model, workdir, seed)
 
 
